@@ -59,6 +59,21 @@ func checkC17(e *Env, r *Report) {
 		b := e.RunPrebuild(c, BuildOpts{Src: f.aug, Tag: "aug"})
 		finals = append(finals, f.finalEvents(b)...)
 	}
+	// the same through the single-path option: `--full --file apparmor.d` builds the whole tree too
+	fb := e.RunPrebuild(Cfg{"arch", 4, "4.1", "complain", true}, BuildOpts{Src: f.aug, Tag: "fileopt", NoCache: true, Extra: []string{"--file", "apparmor.d"}})
+	if fb.Err == nil {
+		fe := f.finalEvents(fb)
+		for _, x := range fe {
+			if m, ok := x.(map[string]any); ok {
+				m["cfgkey"] = fmt.Sprint(m["cfgkey"]) + "+file"
+			}
+		}
+		finals = append(finals, fe...)
+		r.Coverage["file_option_build_events"] = len(fe)
+		fb.Drop()
+	} else {
+		r.Inconcl = append(r.Inconcl, "--full --file apparmor.d did not build: "+tail(fb.Err.Error(), 200))
+	}
 	r.Coverage["final_events"] = len(finals)
 	if err := f.validate(eps, map[string]bool{"C17": true}, map[string]bool{"C17": true}, finals...); err != nil {
 		r.Fatal = err.Error()
